@@ -12,6 +12,7 @@ import (
 	"path/filepath"
 	"sort"
 	"strings"
+	"sync"
 	"testing"
 	"time"
 
@@ -51,6 +52,7 @@ type Case struct {
 	Query    string   `json:"query,omitempty"`
 	QPartner string   `json:"qpartner,omitempty"`
 	QScript  []QMut   `json:"qscript,omitempty"`
+	Only     string   `json:"only,omitempty"` // "named" or "auto": restrict the runs (for slow regression inputs)
 }
 
 var byteFormats = []string{"zng", "zng", "zng", "zng", "zng", "vng", "vng", "vng", "zson", "zson", "zjson", "zjson", "json", "csv", "tsv", "zeek", "line"}
@@ -328,7 +330,11 @@ func loadRepoCorpus() {
 	}
 }
 
-func init() { loadRepoCorpus() }
+var repoOnce sync.Once
+
+// repoCorpus loads the repo inputs and programs on first use (generators only;
+// replays and fuzz workers never need them).
+func repoCorpus() { repoOnce.Do(loadRepoCorpus) }
 
 // ---- generator for byte cases
 
@@ -363,16 +369,17 @@ func hostileBases() []hostileBase {
 		{"zng-zero-run", "zng", bytes.Repeat([]byte{0x00}, 64)},
 		{"zng-control-empty", "zng", []byte{0x20, 0x00}},
 		{"zng-self-ref-array", "zng", frame(0x00, []byte{1, 30})},
+		{"zng-typedef-chain-300", "zng", zngChain(300)},
 		{"vng-header-only", "vng", cat([]byte("VNG\x00"), []byte{4, 0, 0, 0}, make([]byte, 16))},
 		{"vng-header-metasize-huge", "vng", cat([]byte("VNG\x00"), []byte{4, 0, 0, 0}, []byte{0, 0, 0, 0, 0, 0, 0, 0x10}, make([]byte, 8))},
 		{"parquet-magic", "vng", cat([]byte("PAR1"), make([]byte, 16), []byte{0xff, 0xff, 0xff, 0x7f}, []byte("PAR1"))},
 		{"arrow-continuation", "vng", cat([]byte{0xff, 0xff, 0xff, 0xff, 0x10, 0, 0, 0}, make([]byte, 32))},
-		{"zson-deep-array", "zson", deepText("[", "]", 5000)},
-		{"zson-deep-record", "zson", bytes.Repeat([]byte("{a:"), 5000)},
-		{"zson-deep-type", "zson", cat([]byte("<"), bytes.Repeat([]byte("["), 5000), []byte("int64"), bytes.Repeat([]byte("]"), 5000), []byte(">"))},
+		{"zson-deep-array", "zson", deepText("[", "]", 1200)},
+		{"zson-deep-record", "zson", bytes.Repeat([]byte("{a:"), 1200)},
+		{"zson-deep-type", "zson", cat([]byte("<"), bytes.Repeat([]byte("["), 1200), []byte("int64"), bytes.Repeat([]byte("]"), 1200), []byte(">"))},
 		{"zson-deep-union-decorator", "zson", cat([]byte("1"), bytes.Repeat([]byte("((int64,string)"), 200))},
-		{"json-deep-array", "json", deepText("[", "]", 5000)},
-		{"json-deep-object", "json", bytes.Repeat([]byte("{\"a\":"), 5000)},
+		{"json-deep-array", "json", deepText("[", "]", 1200)},
+		{"json-deep-object", "json", bytes.Repeat([]byte("{\"a\":"), 1200)},
 		{"json-long-number", "json", bytes.Repeat([]byte("9"), 5000)},
 		{"zjson-deep-type", "zjson", cat(bytes.Repeat([]byte(`{"type":{"kind":"array","type":`), 300), []byte(`{"kind":"primitive","name":"int64"}`), bytes.Repeat([]byte("}"), 300), []byte(`,"value":null}`))},
 		{"csv-unterminated-quote", "csv", []byte("a,b\n\"1,2\n3,4\n")},
@@ -385,6 +392,29 @@ func hostileBases() []hostileBase {
 }
 
 var hostilePool = hostileBases()
+
+// zngChain is a ZNG stream defining n nested array types (each typedef refers
+// to the previous one) followed by one null value of the deepest type.
+func zngChain(n int) []byte {
+	var body []byte
+	for i := 0; i < n; i++ {
+		body = append(body, 1)
+		id := 9
+		if i > 0 {
+			id = 30 + i - 1
+		}
+		body = binary.AppendUvarint(body, uint64(id))
+	}
+	out := []byte{byte(len(body) & 0xf)}
+	out = binary.AppendUvarint(out, uint64(len(body)>>4))
+	out = append(out, body...)
+	var vb []byte
+	vb = binary.AppendUvarint(vb, uint64(30+n-1))
+	vb = append(vb, 0)
+	out = append(out, 0x10|byte(len(vb)&0xf))
+	out = binary.AppendUvarint(out, uint64(len(vb)>>4))
+	return append(out, vb...)
+}
 
 func drawData(t *rapid.T, binary bool) []byte {
 	switch k := rapid.IntRange(0, 9).Draw(t, "datakind"); {
@@ -454,6 +484,7 @@ func drawScript(t *rapid.T, format string, base []byte, canSplice bool) []Mut {
 }
 
 func genBytes(t *rapid.T) Case {
+	repoCorpus()
 	c := Case{Kind: "bytes"}
 	c.Format = rapid.SampledFrom(byteFormats).Draw(t, "format")
 	maxLen := 12
@@ -549,6 +580,9 @@ func runBytes(c Case) *vt.Outcome {
 	}
 	past := false
 	for _, via := range []string{"named", "auto"} {
+		if c.Only != "" && c.Only != via {
+			continue
+		}
 		cfg := runCfg{Via: via, Format: c.Format, Threads: 1, Validate: c.Validate, Chunk: c.Chunk}
 		if c.Chunk == 0 && (via == "auto" || c.Format == "vng") {
 			if meta, ok := looksLikeVNG(input); ok {
